@@ -8,7 +8,7 @@ Decided:
          simulation), the interpolation memo of GFunction, the g-function rebuilt from its own fields
   R13.2  mutable defaults: a list / dict / set default argument is only ever read (subscripted, iterated,
          passed on to a parameter that is itself only read)
-  R13.12 a table built on first use is emptied by whatever re-assigns the attributes it was built from
+  R13.12 a table or a single value built on first use is emptied / dropped by whatever re-assigns the attributes it was built from
   R13.11 every success path of GHEManager.set_design builds a new design object from the manager's current inputs and stores
          it (the design keeps its own references to the input objects, which every setter replaces)
   R13.10 no stale derived state (a method replaces an attribute and leaves behind what the constructor computed from it; the
@@ -424,16 +424,32 @@ def _check_lazy_tables(prog: Program, res: Result):
                 for x in ast.walk(t):
                     if isinstance(x, ast.Call) and attr_chain(x.func) == "len" and x.args and (attr_chain(x.args[0]) or "").startswith("self.") and attr_chain(x.args[0]).count(".") == 1:
                         T = attr_chain(x.args[0])
+                lazy_value = False
+                if T is None and mname != "__init__":
+                    # self.X is None | self.X is not None | not self.X : a single value built on first use
+                    tt_ = t.operand if isinstance(t, ast.UnaryOp) and isinstance(t.op, ast.Not) else t
+                    if isinstance(tt_, ast.Compare) and len(tt_.ops) == 1 and isinstance(tt_.ops[0], (ast.Is, ast.IsNot)) and isinstance(tt_.comparators[0], ast.Constant) \
+                            and tt_.comparators[0].value is None:
+                        tt_ = tt_.left
+                    c_ = attr_chain(tt_) if isinstance(tt_, ast.Attribute) else None
+                    if c_ and c_.startswith("self.") and c_.count(".") == 1:
+                        T, lazy_value = c_, True
                 if T is None:
                     continue
-                fills = [b_ for blk in (n.body, n.orelse) for b_ in blk for y in ast.walk(b_)
-                         if isinstance(y, ast.Subscript) and isinstance(y.ctx, ast.Store) and attr_chain(y.value) == T]
+                if lazy_value:
+                    fills = [b_ for blk in (n.body, n.orelse) for b_ in blk if isinstance(b_, ast.Assign) and any(attr_chain(tg) == T for tg in b_.targets)
+                             and not (isinstance(b_.value, ast.Constant) and b_.value.value is None)]
+                else:
+                    fills = [b_ for blk in (n.body, n.orelse) for b_ in blk for y in ast.walk(b_)
+                             if isinstance(y, ast.Subscript) and isinstance(y.ctx, ast.Store) and attr_chain(y.value) == T]
                 if not fills:
                     continue
                 blk = n.body if any(f_ in n.body for f_ in fills) else n.orelse
                 deps = {attr_chain(y) for b_ in blk for y in ast.walk(b_) if isinstance(y, ast.Attribute) and (attr_chain(y) or "").startswith("self.") and attr_chain(y).count(".") == 1} - {T}
                 dep_names = {d.split(".")[1] for d in deps}
                 tname = T.split(".")[1]
+                if lazy_value and not dep_names:
+                    continue  # built from parameters / constants only: nothing of the object it could fall behind
                 n_tab += 1
                 stale = []
                 for q2, f2 in sorted(prog.funcs.items()):
@@ -961,6 +977,12 @@ VARIANTS = [
     Variant("the last equivalent pipe conductivity is remembered on the class and narrows the next search (seeded C15_g)", "break",
             [("ghedesigner.borehole_heat_exchangers", "class GHEDesignerBoreholeWithMultiplePipes(GHEDesignerBoreholeBase):\n", "class GHEDesignerBoreholeWithMultiplePipes(GHEDesignerBoreholeBase):\n    _k_p_equivalent = None\n\n"),
              ("ghedesigner.borehole_heat_exchangers", "        return eq_single_u_tube\n\n    def match_effective_borehole_resistance", "        GHEDesignerBoreholeWithMultiplePipes._k_p_equivalent = eq_single_u_tube.pipe.k\n        return eq_single_u_tube\n\n    def match_effective_borehole_resistance")], "R13.8"),
+    Variant("short-time interpolant built on first use and never refreshed when the curves are recomputed (seeded C07_l)", "break",
+            [("ghedesigner.radial_numerical_borehole", "        self.g_sts = None\n", "        self._g_sts = None\n\n    @property\n    def g_sts(self):\n        if self._g_sts is None:\n            self._g_sts = interp1d(self.lntts, self.g)\n        return self._g_sts\n"),
+             ("ghedesigner.radial_numerical_borehole", "        self.g_sts = interp1d(self.lntts, self.g)\n\n        return self.lntts, self.g", "        return self.lntts, self.g")], "R13.12"),
+    Variant("short-time interpolant built on first use, dropped whenever the curves are recomputed", "benign",
+            [("ghedesigner.radial_numerical_borehole", "        self.g_sts = None\n", "        self._g_sts = None\n\n    @property\n    def g_sts(self):\n        if self._g_sts is None:\n            self._g_sts = interp1d(self.lntts, self.g)\n        return self._g_sts\n"),
+             ("ghedesigner.radial_numerical_borehole", "        self.g_sts = interp1d(self.lntts, self.g)\n\n        return self.lntts, self.g", "        self._g_sts = None\n\n        return self.lntts, self.g")]),
     Variant("compute_g_functions writes the new curves into the existing g-function object (seeded C13_h)", "break",
             [(GHX, "        self.gFunction = g_function\n\n\nclass GHE(BaseGHE):", "        self.gFunction.g_lts = g_function.g_lts\n        self.gFunction.r_b_values = g_function.r_b_values\n\n\nclass GHE(BaseGHE):")], "R13.12"),
     Variant("compute_g_functions writes the new curves into the existing g-function object and empties its interpolation table", "benign",
